@@ -849,6 +849,7 @@ struct SysHarness
   size_t refused{0}; // log calls that returned false (dropping queue)
   quill::detail::BackendWorker* bw{nullptr};
   LG* lg_of[MAXT + 1]{};
+  LG* lgS_of[MAXT + 1]{}; // the logger of the shared name "S" as each thread got it
   int gen_of[MAXT + 1]{};                      // generation of the thread's logger (A for thread 1, B for thread 3)
   std::vector<int> removed_of[MAXT + 1];       // generations whose removal was requested
   std::vector<std::pair<int, std::string>> logged_via_of[MAXT + 1]; // (sink id, message) in issue order
@@ -857,6 +858,7 @@ struct SysHarness
   // per virtual frontend thread (index = explorer thread id: 1 and 3)
   quill::detail::ScopedThreadContext* stc_of[MAXT + 1]{};
   bool registered_of[MAXT + 1]{};
+  bool joined_of[MAXT + 1]{};
   std::vector<std::string> logged_of[MAXT + 1];
   std::vector<std::string> recs, notes;
   unsigned stalls{0};
@@ -901,7 +903,7 @@ struct SysHarness
     for (auto const& o : ops)
     {
       if (W->abort_exec) return;
-      if (o.kind == 'r' || ((o.kind == 'l' || o.kind == 'f' || o.kind == 'B') && !registered_of[me]))
+      if (o.kind == 'r' || ((o.kind == 'l' || o.kind == 'L' || o.kind == 'f' || o.kind == 'B') && !registered_of[me]))
       {
         // what the first log call of a thread does (get_local_thread_context): construct the thread's scoped context
         stc_of[me] = new quill::detail::ScopedThreadContext(SysOpt::queue_type, SysOpt::initial_queue_capacity, SysOpt::unbounded_queue_max_capacity, SysOpt::huge_pages_policy);
@@ -911,6 +913,7 @@ struct SysHarness
       if (W->abort_exec) return;
       LG* lg = lg_of[me];
       if ((o.kind == 'l' || o.kind == 'f' || o.kind == 'R' || o.kind == 'B') && (!lg || stop_returned)) continue; // the logger is gone / the backend stopped
+      if (o.kind == 'L' && !registered_of[me]) continue;
       if (o.kind == 'l')
       {
         bool const ok = lg->template log_statement<false, false>(quill::LogLevel::None, &md, me, static_cast<int>(o.n));
@@ -955,12 +958,41 @@ struct SysHarness
         ++gen_of[me];
         lg_of[me] = F::create_or_get_logger(name_of(me), std::make_shared<SysSink>(sink_id(me, gen_of[me])), quill::PatternFormatterOptions{"%(message)"}, quill::ClockSourceType::System);
       }
+      else if (o.kind == 'C')
+      {
+        // create_or_get_logger of a name both threads use: the first creates it with its sink, the other gets that logger
+        lgS_of[me] = F::create_or_get_logger("S", std::make_shared<SysSink>(90 + me), quill::PatternFormatterOptions{"%(message)"}, quill::ClockSourceType::System);
+      }
+      else if (o.kind == 'L' && lgS_of[me])
+      {
+        bool const ok = lgS_of[me]->template log_statement<false, false>(quill::LogLevel::None, &md, me, static_cast<int>(o.n));
+        if (W->abort_exec) return;
+        if (ok)
+        {
+          logged_of[me].push_back("m" + std::to_string(me) + "." + std::to_string(o.n));
+          logged_via_of[me].emplace_back(-1, logged_of[me].back()); // sink decided in the probe (whoever created the logger)
+        }
+        else
+          ++refused;
+      }
+      else if (o.kind == 'j')
+      {
+        // std::thread::join of the other frontend thread: everything it did happens-before what follows here
+        int const other = me == 1 ? 3 : 1;
+        if (other < MAXT && !W->th[other].finished) block_on_custom_condition([other] { return W->th[other].finished; });
+        if (W->abort_exec) return;
+        W->th[W->cur].clk.join(W->th[other].clk);
+        for (size_t k = 0; k < W->th[W->cur].view.size() && k < W->th[other].view.size(); ++k)
+          if (W->th[other].view[k] > W->th[W->cur].view[k]) W->th[W->cur].view[k] = W->th[other].view[k];
+        g_sys_clock[me] = std::max(g_sys_clock[me], g_sys_clock[other]) + 1; // real time does not run backwards across a join
+        joined_of[me] = true;
+        W->th[W->cur].hist += "j;";
+      }
       else if (o.kind == 'S')
       {
         // Backend::stop(): request + join. Every statement whose call completed before is written when it returns
         bw->stop();
-        W->custom_wake = [] { return W->th[2].finished; };
-        if (!W->th[2].finished) block_on_custom_condition();
+        if (!W->th[2].finished) block_on_custom_condition([] { return W->th[2].finished; });
         if (W->abort_exec) return;
         W->th[W->cur].clk.join(W->th[2].clk); // join
         size_t got = 0;
@@ -981,6 +1013,19 @@ struct SysHarness
         std::string const pre = ":m" + std::to_string(me) + ".";
         for (auto const& r : recs)
           if (r.find(pre) != std::string::npos) ++got;
+        // a thread that had exited (and was joined) before flush_log() was called, all of whose statements are written, has
+        // been reclaimed when flush_log() returns (the flush handling runs the clean-up before it releases the caller)
+        {
+          int const other = me == 1 ? 3 : 1;
+          if (other < MAXT && joined_of[me] && !registered_of[other] && !logged_of[other].empty() && g_cfg.runloop.empty())
+          {
+            size_t const ctxs = quill::detail::ThreadContextManager::instance()._thread_contexts.size();
+            size_t const live = registered_of[me] ? 1 : 0;
+            if (ctxs != live)
+              fail("exited-thread-not-reclaimed-at-flush-return", std::to_string(ctxs) + " thread contexts retained when flush_log() returned, " + std::to_string(live) +
+                                                                     " live thread(s) have logged (the other thread exited and was joined before the flush)");
+          }
+        }
         if (got != logged_of[me].size())
           fail("flush-returned-before-statement-written", "flush_log() of thread " + std::to_string(me) + " returned with " + std::to_string(got) + " of its " +
                                                            std::to_string(logged_of[me].size()) + " earlier statements at the sink");
@@ -1015,6 +1060,7 @@ struct SysHarness
     {
       if (t >= MAXT || W->th[t].finished) continue;
       if (!(W->th[t].blocked && !wake_possible(W->th[t]))) return false;
+      if (W->th[t].custom_wait) continue; // joining another frontend: waits for that one
       any = true;
     }
     return any;
@@ -1053,14 +1099,13 @@ struct SysHarness
     for (size_t i = 0; i < g_cfg.passes && !W->abort_exec; ++i) bw->_poll();
     // afterwards the backend keeps polling only for as long as a frontend is waiting for it (at most `extra` more polls: a
     // correct backend serves a waiting frontend within two; a frontend still waiting after them is reported as a deadlock)
-    W->custom_wake = [] { return frontend_needs_backend() || frontends_finished(); };
     W->th[2].latest_only = true; // a store becomes visible in finite time: the on-demand polls see the latest values
     for (size_t extra = 0; extra < g_cfg.extra && !W->abort_exec; ++extra)
     {
       if (!frontend_needs_backend())
       {
         if (frontends_finished()) break;
-        block_on_custom_condition();
+        block_on_custom_condition([] { return frontend_needs_backend() || frontends_finished(); });
         if (W->abort_exec || frontends_finished()) break;
       }
       bw->_poll();
@@ -1101,6 +1146,33 @@ struct SysHarness
         fail("statement-lost-duplicated-or-reordered", "the sink received [" + a + "] from thread " + std::to_string(me) + " after the backend drained alone; the thread's completed log calls were [" + b + "]");
       }
       if (registered_of[me]) ++want;
+    }
+    // the shared name: one logger, the same for everybody who asked; its sink is the first creator's, the other sink offered
+    // is destroyed unused
+    {
+      size_t named_s = 0;
+      for (auto const& lp : quill::detail::LoggerManager::instance()._loggers)
+        if (lp->get_logger_name() == "S") ++named_s;
+      bool const any = lgS_of[1] || lgS_of[3];
+      if (named_s != (any ? 1u : 0u))
+        fail("logger-name-not-unique", std::to_string(named_s) + " loggers are registered under the name S");
+      if (lgS_of[1] && lgS_of[3] && lgS_of[1] != lgS_of[3])
+        fail("create_or_get_logger-not-idempotent", "two threads asked for the logger S and got two different loggers");
+      int shared_sink = -1;
+      if (any && !W->violation)
+      {
+        LG* l = lgS_of[1] ? lgS_of[1] : lgS_of[3];
+        shared_sink = static_cast<SysSink*>(l->sinks[0].get())->_id;
+        for (int me : {1, 3})
+        {
+          for (auto& pr : logged_via_of[me])
+            if (pr.first == -1) pr.first = shared_sink;
+          if (lgS_of[me] && 90 + me != shared_sink && std::count(recs.begin(), recs.end(), "destroyed:" + std::to_string(90 + me)) != 1)
+            fail("unused-sink-not-destroyed", "the sink thread " + std::to_string(me) + " offered for the already existing logger S was not destroyed exactly once");
+        }
+        if (std::count(recs.begin(), recs.end(), "destroyed:" + std::to_string(shared_sink)) != 0)
+          fail("sink-destroyed-while-referenced", "the sink of the live logger S was destroyed");
+      }
     }
     // logger generations: each statement at the sink of the generation it was logged through; a sink is destroyed exactly once,
     // after everything logged through its logger was written, and only if the logger's removal was requested
